@@ -22,6 +22,24 @@ Theorem C08_roundtrip : forall i, wf_cat i ->
 Proof. exact roundtrip_readlines. Qed.
 Print Assumptions C08_roundtrip.
 
+(* FILE entry points under the weaker hypothesis wf_cat_rl: file.readlines() ends a line only at "\n" / "\r", so
+   metadata values and names may contain the other eight str.splitlines boundaries (\x0b \x0c \x1c \x1d \x1e \x85
+   U+2028 U+2029) strictly inside (wf_cat implies wf_cat_rl: wf_cat_weaken) *)
+Theorem C08_roundtrip_file : forall i, wf_cat_rl i ->
+  cat_parse false false (meta0 (lit "cat")) (readlines (cat_write i)) = Ok (sorted_view i).
+Proof. exact roundtrip_readlines_rl. Qed.
+Print Assumptions C08_roundtrip_file.
+
+Theorem C08_sorted_idempotent_file : forall i, wf_cat_rl i ->
+  exists j, cat_parse false false (meta0 (lit "cat")) (readlines (cat_write i)) = Ok j /\
+            StronglySorted (fun x y => (mult_of (c_mult j) y <= mult_of (c_mult j) x)%N) (c_prefs j) /\
+            cat_write j = cat_write i.
+Proof.
+  intros i W. exists (sorted_view i). split; [now apply roundtrip_readlines_rl|].
+  split; [apply sorted_view_non_increasing|apply write_sorted_view].
+Qed.
+Print Assumptions C08_sorted_idempotent_file.
+
 (* the same through parse_str (str.splitlines) *)
 Theorem C08_roundtrip_str : forall i, wf_cat i ->
   cat_parse false false (meta0 (lit "cat")) (splitlines (cat_write i)) = Ok (sorted_view i).
@@ -37,7 +55,7 @@ Theorem C08_same_content : forall i, wf_cat i ->
   Permutation (c_prefs i) (c_prefs (sorted_view i)) /\
   Permutation (c_mult i) (c_mult (sorted_view i)) /\
   (forall b, mult_of (c_mult (sorted_view i)) b = mult_of (c_mult i) b).
-Proof. exact sorted_view_same. Qed.
+Proof. intros i W. now apply sorted_view_same, wf_cat_weaken. Qed.
 Print Assumptions C08_same_content.
 
 (* ---- ballots are listed by non-increasing multiplicity --------------------------------------------------- *)
